@@ -59,6 +59,11 @@ def type_to_dict(typ: type) -> TypeDict:
     if is_typed_dict(typ):
         return typed_dict_to_dict(typ)
 
+    # The `...` of a variable-length tuple type (e.g. `Tuple[int, ...]`, which
+    # RewriteLargeUnion produces) is an argument, not a type.
+    if typ is Ellipsis:
+        return {"module": "builtins", "qualname": "Ellipsis"}
+
     # Union and Any are special cases that aren't actually types.
     if is_union(typ):
         qualname = "Union"
@@ -108,6 +113,8 @@ def type_from_dict(d: TypeDict) -> type:
     module, qualname = d["module"], d["qualname"]
     if d.get("is_typed_dict", False):
         return typed_dict_from_dict(d)
+    if module == "builtins" and qualname == "Ellipsis":
+        return Ellipsis  # type: ignore[return-value]
     if module == "builtins" and qualname in _HIDDEN_BUILTIN_TYPES:
         typ = _HIDDEN_BUILTIN_TYPES[qualname]
     else:
